@@ -175,6 +175,8 @@ def run(F, res, tier):
     failed_scan_is_remembered(F, res)
     _c10.inference_is_memoised(F, res, rule="K12")
     _c10.same_class_is_a_no_op(F, res, rule="K13")
+    _c10.display_is_budgeted(F, res, rule="K15")
+    _c10.recursion_follows_nesting_not_length(F, res, rule="K16")
     # never a panic: a query cycle met while salsa validates a memo after a change panics on every later snapshot
     _c10.cycles_are_cut(F, res, rule="K9")
     from rules import c09 as _c09
